@@ -3,7 +3,7 @@
 export VERIF_REPO=$VP_RUN_REPO
 export VERIF_SHARDS=8
 python3 verif.py setup || exit 2
-for p in C14 C06 C05 C04 C13 C16 C17 C01 C02 C07 C08 C09 C11 C19 C03 C12 C20 C10 C15 C18; do
+for p in ${THOROUGH_PROPS:-C04 C05 C06 C14 C07 C08 C09 C11 C19 C03 C12 C13 C16 C17 C01 C02 C20 C10 C15 C18}; do
   s=$(date +%s)
   python3 verif.py check $p --tier thorough > out_$p.txt 2>&1
   rc=$?
